@@ -123,6 +123,7 @@ struct Ctx {
   int start = kToFuture, start_exec = 0;
   bool sink_called = false;
   int guards_used = 0;
+  bool head_ran = false;  // body of a coroutine-Task head executed
 };
 
 // ------------------------------------------------------------------------------------------------ reference model
@@ -159,10 +160,13 @@ MRes ModelProduce(Model& m, const Step& s, int in, bool wvoid, int* ctx) {
     case 2:
       return s.par % 2 == 0 ? MRes{1, 0, out} : MRes{0, ov, 0};
     case 3:
-    case 5:  // Future: MakeFuture | Run(e); Task: MakeTask | Schedule(e)
+    case 5:  // Future: MakeFuture | Run(e); Task: MakeTask | Schedule(e) | Schedule(e).ThenInline(identity)
       ++m.constructs;
       if (s.par % 2 == 0) {
         return {0, ov, 0};
+      }
+      if (s.ret % kRetN == 5 && s.par / 4 == 2) {
+        ++m.constructs;
       }
       {
         const int e = s.par / 2 % 2;
@@ -195,6 +199,13 @@ yaclib::Task<int, TErr> CoTaskInt(int x) {
 }
 yaclib::Task<void, TErr> CoTaskVoid() {
   co_return{};
+}
+// A coroutine Task used as the head of a lazy pipeline: its frame owns a Tracked parameter from creation on (released
+// with the frame also when the Task is dropped without ever being started) and its body must not run before the start.
+yaclib::Task<int, TErr> CoHead(Ctx* cp, vf::Guard g) {
+  cp->head_ran = true;
+  g.Use();
+  co_return 1;
 }
 yaclib::Future<int, TErr> CoFutInt(int x) {
   co_return x;
@@ -244,9 +255,20 @@ auto Produce(Ctx& c, const Step& s, int in) {
     if (s.par % 2 == 1) {
       // a lazy head on one of the two executors (possibly the one this step itself runs on, possibly refusing by now):
       // flattening starts it, its Submit is the executor's decision exactly as for the eager Run above
-      return yaclib::Schedule<TErr>(c.ex[s.par / 2 % 2], [out] {
+      auto head = yaclib::Schedule<TErr>(c.ex[s.par / 2 % 2], [out] {
         return Val<W>(out);
       });
+      if (s.par / 4 == 2) {  // a chain of two cores is returned: the flattening starts it from its tail
+        if constexpr (std::is_void_v<W>) {
+          return std::move(head).ThenInline([] {
+          });
+        } else {
+          return std::move(head).ThenInline([](int x) {
+            return x;
+          });
+        }
+      }
+      return head;
     }
     if constexpr (std::is_void_v<W>) {
       return yaclib::MakeTask<void, TErr>();
@@ -359,7 +381,7 @@ template <typename H>
 void Finish(H h, Ctx& c) {
   using V = typename VT<H>::type;
   if constexpr (yaclib::is_task_v<H>) {
-    if (!c.log.empty() || c.ex[0].submits != 0 || c.ex[1].submits != 0) {
+    if (!c.log.empty() || c.ex[0].submits != 0 || c.ex[1].submits != 0 || c.head_ran) {
       c.ran_before_start = true;
     }
     if (c.abandon) {
@@ -770,7 +792,11 @@ void RunReal(const Params& p, Outcome& o, int source_override = -1) {
         Extend(yaclib::Run<TErr>(yaclib::MakeInline(yaclib::StopTag{}), [] { return 1; }), c);
         break;
       case kMakeTask:
-        Extend(yaclib::MakeTask<int, TErr>(1), c);
+        if (p.se == 1) {  // same observable behaviour as MakeTask(1): one allocation (the frame), value 1, lazy
+          Extend(CoHead(&c, vf::Guard{}), c);
+        } else {
+          Extend(yaclib::MakeTask<int, TErr>(1), c);
+        }
         break;
       case kScheduleStopped:
         Extend(yaclib::Schedule<TErr>(yaclib::MakeInline(yaclib::StopTag{}), [] { return 1; }), c);
@@ -954,7 +980,8 @@ class PipeFamily final : public vf::Family {
   std::string Describe(const Case& c) const final {
     const Params p = Decode(c);
     char b[128];
-    std::string s = std::string("source=") + kSourceName[p.source] + " se=" + std::to_string(p.se + 1);
+    std::string s = std::string("source=") + (p.source == kMakeTask && p.se == 1 ? "coroutine Task head" : kSourceName[p.source]) +
+                    " se=" + std::to_string(p.se + 1);
     std::snprintf(b, sizeof b, " refuse_from=[%d,%d] exec=%s", p.rej[0] > 99 ? -1 : p.rej[0], p.rej[1] > 99 ? -1 : p.rej[1],
                   p.immediate ? "immediate" : "queued");
     s += b;
@@ -996,7 +1023,7 @@ class PipeFamily final : public vf::Family {
     interesting |= o.mlog.size() < p.prog.size();
     v.nontrivial = p.prog.size() >= 2 && interesting;
     v.hash = c.ProgHash();
-    v.tags.push_back(kSourceName[p.source]);
+    v.tags.push_back(p.source == kMakeTask && p.se == 1 ? "coroutine Task head" : kSourceName[p.source]);
     if (o.rejected) {
       v.tags.push_back("refused-submit");
     }
